@@ -26,10 +26,12 @@ def https_variation(lru: bytes):
     Returning the http(s) variation of the given lru
     """
 
-    if b"s:http|" in lru:
-        return lru.replace(b"s:http|", b"s:https|", 1)
-    if b"s:https|" in lru:
-        return lru.replace(b"s:https|", b"s:http|", 1)
+    # NOTE: only the leading scheme stem counts, not a "s:http|" found later on
+    # (a path stem such as "p:s:http|" must be left alone)
+    if lru.startswith(b"s:http|"):
+        return b"s:https|" + lru[len(b"s:http|") :]
+    if lru.startswith(b"s:https|"):
+        return b"s:http|" + lru[len(b"s:https|") :]
     return None
 
 
@@ -45,21 +47,32 @@ def lru_variations(lru: bytes):
     https_var = https_variation(lru)
     if https_var:
         variations.append(https_var)
-    stems = lru.split(b"|")
-    hosts = [s for s in stems if s.startswith(b"h:")]
-    hosts_str = b"|".join(hosts) + b"|"
-    if len(hosts) == 1:
+
+    # The hosts are the contiguous host stems following the scheme & port
+    stems = list(lru_iter(lru))
+    start = 1
+    if len(stems) > start and stems[start].startswith(b"t:"):
+        start += 1
+    end = start
+    while end < len(stems) and stems[end].startswith(b"h:"):
+        end += 1
+    hosts = stems[start:end]
+
+    if len(hosts) <= 1:
         return variations
-    if hosts[-1] == b"h:www":
+    if hosts[-1] == b"h:www|":
         hosts.pop(-1)
     else:
-        hosts.append(b"h:www")
+        hosts.append(b"h:www|")
     if len(hosts) == 1:
         return variations
-    www_hosts_var = b"|".join(hosts) + b"|"
-    variations.append(lru.replace(hosts_str, www_hosts_var, 1))
+
+    head = b"".join(stems[:start])
+    tail = lru[len(b"".join(stems[:end])) :]
+    www_var = head + b"".join(hosts) + tail
+    variations.append(www_var)
     if https_var:
-        variations.append(https_var.replace(hosts_str, www_hosts_var, 1))
+        variations.append(https_variation(www_var))
     return variations
 
 
